@@ -91,6 +91,8 @@ def make_profiles(v, sid, rnd, quick):
     for p, ch in paths:
         if "MSH" in p or len(ch[0]) > 3 and ch[3] == "SEG":
             continue
+        if any(n[2][1] == 0 for n in path_nodes(base, p)[:-1]):
+            continue        # below a withdrawn element: the way down is refused under STRICT
         by_level.setdefault(ch[3], []).append(p)
     picks = []
     for lvl in ("SEG", "GRP", "FIE", "CMP"):
@@ -138,71 +140,204 @@ def attr_chain(root, path):
 ADDERS = {"GRP": "add_group", "SEG": "add_segment", "FIE": "add_field", "CMP": "add_component"}
 
 
-def build_parent(m, prof_ref, path):
-    """real elements (no proxies) down to the parent of the edited child, created with the add_* helpers"""
-    el = m
+def path_nodes(prof_ref, path):
+    out = []
     r = prof_ref
-    for name in path[:-1]:
+    for name in path:
         node = [c for c in children_of(r) if c[0] == name][0]
-        fn = ADDERS[node[3]]
-        if el.classname == "Component":
-            fn = "add_subcomponent"
-        el = getattr(el, fn)(name)
+        out.append(node)
         r = node[1]
-    return el
+    return out
+
+
+def adder(parent_cls, child_cls):
+    return "add_subcomponent" if parent_cls == "CMP" else ADDERS[child_cls]
+
+
+def last_of(el, name):
+    xs = list(getattr(el, name.lower()))
+    return xs[-1] if xs else None
+
+
+def st_nodes(st, path):
+    """the nodes of the exported standard structure along a path of group / segment names"""
+    out = []
+    kids = st["kids"]
+    for name in path:
+        hit = [k for k in kids if k["name"] == name]
+        if not hit:
+            break
+        out.append(hit[0])
+        kids = hit[0].get("kids", [])
+    return out
+
+
+def gen_excluding(kids, chosen, rep, exclude, force=False):
+    """required members + the chosen ones (groups in `rep` several times), never the node `exclude`; with `force`, the
+    first admissible member when nothing is required (a group cannot be empty)"""
+    out = []
+    for k in kids:
+        if id(k) == exclude or not (k["min"] >= 1 or id(k) in chosen):
+            continue
+        for _ in range(rep.get(id(k), 1)):
+            if k["kind"] == "SEG":
+                out.append(k["name"])
+            else:
+                out.extend(gen_excluding(k["kids"], chosen, rep, exclude, True))
+    if not out and force:
+        for k in kids:
+            if id(k) == exclude:
+                continue
+            sub = [k["name"]] if k["kind"] == "SEG" else gen_excluding(k["kids"], chosen, rep, exclude, True)
+            if sub:
+                return sub
+    return out
+
+
+def instance_lines(kids, chosen, rep, exclude, force=False):
+    return ["%s|" % n for n in gen_excluding(kids, chosen, rep, exclude, force)]
+
+
+ROUTES = ("add", "trav", "parsed", "assigned")
+
+
+class SkipRoute(Exception):
+    pass
+
+
+def build_parent(v, sid, prof, path, route):
+    """-> (parent element of the edited child, its class); the parent comes into being by `route`:
+       add      - add_* helpers from a Message created with the profile
+       trav     - attribute traversal from that Message (proxies, lazily created chain)
+       parsed   - parse_message(text, message_profile=...) of an instance in which every repeatable group on the way
+                  occurs twice; the LAST repetition at every step is taken
+       assigned - groups and segments on the way are created by assigning ER7 text to the attribute of their parent"""
+    import_hl7apy()
+    from hl7apy.core import Message
+    from hl7apy.parser import parse_message
+    from hl7apy.consts import VALIDATION_LEVEL as VL
+    nodes = path_nodes(prof[sid], path)
+    up = nodes[:-1]
+    structural = [n for n in up if n[3] in ("GRP", "SEG")]
+    st = T.structure(v, sid)
+    sn = st_nodes(st, [n[0] for n in structural])
+    chosen = set(id(k) for k in sn)
+    edited = st_nodes(st, [n[0] for n in nodes if n[3] in ("GRP", "SEG")])
+    exclude = id(edited[-1]) if nodes[-1][3] in ("GRP", "SEG") and len(edited) == len(structural) + 1 else None
+    if route == "parsed":
+        # a repeatable group is given twice when it opens with a non-repeatable segment of its own (a repetition that opens with a
+        # nested non-repeatable group is the recorded finding C08-nonrepeatable-inner-group, not this property)
+        # ... and that segment is named at one place of the structure only (the premise of C08's prescription)
+        allnames = [k["name"] for k in groups.all_nodes(st)]
+        rep = dict((id(k), 2) for k, n in zip(sn, structural)
+                   if n[3] == "GRP" and n[2][1] != 1 and k["kids"] and k["kids"][0]["kind"] == "SEG" and k["kids"][0]["max"] == 1
+                   and allnames.count(k["kids"][0]["name"]) == 1)
+        body = [l for l in instance_lines(st["kids"], chosen, rep, exclude) if not l.startswith("MSH")]
+        head = groups.msh(v, sid)
+        try:
+            el = parse_message("\r".join([head] + body), message_profile=prof, validation_level=VL.STRICT)
+        except Exception as ex:
+            if type(ex).__name__ != "InvalidName":
+                raise
+            # versions whose MSH-9 has two components only: the structure is then derived as TYPE_EVENT
+            if "_" not in sid:
+                raise SkipRoute()
+            head = head.replace("^" + sid + "|", "|")
+            el = parse_message("\r".join([head] + body), message_profile=prof, validation_level=VL.STRICT)
+    else:
+        el = Message(sid, reference=prof, version=v, validation_level=VL.STRICT)
+    cls = "MSG"
+    if route == "trav":
+        for n in up:
+            el = getattr(el, n[0].lower())
+            cls = n[3]
+        return el, cls
+    for i, n in enumerate(up):
+        name = n[0]
+        nxt = None
+        if route == "parsed" and n[3] in ("GRP", "SEG"):
+            nxt = last_of(el, name)
+        elif route == "assigned" and n[3] in ("GRP", "SEG") and i < len(sn):
+            if n[3] == "SEG":
+                setattr(el, name.lower(), "%s|" % name)
+            else:
+                setattr(el, name.lower(), "\r".join(instance_lines(sn[i]["kids"], chosen, {}, exclude, True)))
+            nxt = last_of(el, name)
+        if nxt is None:
+            nxt = getattr(el, adder(cls, n[3]))(name)
+        el, cls = nxt, n[3]
+    return el, cls
+
+
+def safe_value(node, sep="^"):
+    """a text for the edited child that lands in the first component (subcomponent) the profile does not withdraw"""
+    ref = node[1]
+    if not isinstance(ref, list) or not ref or ref[0] == "leaf":
+        return "2020"
+    comps = children_of(ref)
+    for i, c in enumerate(comps):
+        if c[2][1] != 0:
+            return sep * i + (safe_value(c, "&") if sep == "^" else "2020")
+    return "2020"
 
 
 def create_events(v, sid, desc, prof, path, kind, node):
-    """the edited child created through every path under STRICT, until the parent refuses"""
-    import_hl7apy()
-    from hl7apy.core import Message
-    from hl7apy.consts import VALIDATION_LEVEL as VL
+    """the edited child created through every path under STRICT, until the parent refuses - below a parent that itself
+    came into being through every route"""
     out = []
     mn, mx = node[2]
     cls = node[3]
     dt_want = node[1][2] if len(node[1]) > 2 and cls in ("FIE", "CMP") else ""
     name = path[-1]
-    val = "2020" if cls != "SEG" else "%s|" % name
+    val = "%s|" % name if cls == "SEG" else safe_value(node, "^" if cls == "FIE" else "&")
     hows = ("add",) if cls == "GRP" else ("traversal", "add", "assign")
-    for how in hows:
-        e = {"k": "create", "how": how, "desc": desc, "v": v, "sid": sid, "dt_want": dt_want or "", "dt_got": "", "max_want": mx,
-             "accepted": 0, "tried": 3, "outcome": "ok"}
-        try:
-            m = Message(sid, reference=prof, version=v, validation_level=VL.STRICT)
-            parent = build_parent(m, prof[sid], path)
-            got_dt = None
-            acc = 0
-            for k in range(3):
-                try:
-                    if how == "add":
-                        fn = ADDERS[cls]
-                        if parent.classname == "Component":
-                            fn = "add_subcomponent"
-                        ch = getattr(parent, fn)(name)
-                    elif how == "traversal":
-                        if k == 0:
-                            getattr(parent, name.lower()).value = val
+    segnames = [k["name"] for k in groups.all_nodes(T.structure(v, sid)) if k["kind"] == "SEG"]
+    unambiguous = len(set(segnames)) == len(segnames)
+    for route in ROUTES:
+        if route == "trav" and len(path) == 1:
+            continue
+        if route in ("parsed", "assigned") and not unambiguous:
+            continue        # text can be grouped in one way only when every segment is named at one place (premise of C08)
+        for how in hows:
+            e = {"k": "create", "route": route, "how": how, "desc": desc, "v": v, "sid": sid, "dt_want": dt_want or "", "dt_got": "",
+                 "max_want": mx, "accepted": 0, "tried": 3, "outcome": "ok"}
+            try:
+                parent, pcls = build_parent(v, sid, prof, path, route)
+                pre = 0 if route in ("add", "trav") else len(list(getattr(parent, name.lower())))
+                got_dt = None
+                acc = 0
+                for k in range(pre, pre + 3):
+                    try:
+                        if how == "add":
+                            ch = getattr(parent, adder(pcls, cls))(name)
+                        elif how == "traversal":
+                            if k == 0:
+                                getattr(parent, name.lower()).value = val
+                            else:
+                                getattr(parent, name.lower())[k] = val
+                            ch = getattr(parent, name.lower())[k]
                         else:
-                            getattr(parent, name.lower())[k] = val
-                        ch = getattr(parent, name.lower())[k]
-                    else:
-                        if k == 0:
-                            setattr(parent, name.lower(), val)
-                        else:
-                            getattr(parent, name.lower())[k] = val
-                        ch = getattr(parent, name.lower())[k]
-                    if k == 0 and cls in ("FIE", "CMP"):
-                        got_dt = ch.datatype
-                    acc += 1
-                except Exception as ex:
-                    if type(ex).__name__ == "MaxChildLimitReached":
-                        break
-                    raise
-            e["accepted"] = acc
-            e["dt_got"] = (got_dt or "") if (dt_want and acc >= 1) else (dt_want if dt_want and acc == 0 else "")
-        except Exception as ex:
-            e["outcome"] = exc_name(ex)
-        out.append(e)
+                            if k == 0:
+                                setattr(parent, name.lower(), val)
+                            else:
+                                getattr(parent, name.lower())[k] = val
+                            ch = getattr(parent, name.lower())[k]
+                        if k == pre and cls in ("FIE", "CMP"):
+                            got_dt = ch.datatype
+                        acc += 1
+                    except Exception as ex:
+                        if type(ex).__name__ == "MaxChildLimitReached" and getattr(getattr(ex, "child", None), "name", None) == name:
+                            break       # refused by the parent of the edited child (not by something below it)
+                        raise
+                e["accepted"] = pre + acc
+                e["tried"] = pre + 3
+                e["pre"] = pre
+                e["dt_got"] = (got_dt or "") if (dt_want and acc >= 1) else (dt_want if dt_want and acc == 0 else "")
+            except SkipRoute:
+                continue
+            except Exception as ex:
+                e["outcome"] = exc_name(ex)
+            out.append(e)
     return out
 
 
@@ -250,7 +385,9 @@ def validation_events(v, sid, desc, prof, rnd):
     out = []
     st = T.structure(v, sid)
     for (mode, names, conf) in groups.instances(st, rnd, True)[:3]:
-        text = "\r".join([groups.msh(v, sid)] + [groups.seg_text(n, i + 1) for i, n in enumerate(names[1:])])
+        # (a segment the version defines without fields - withdrawn, e.g. URD in 2.8.2 - conforms only when bare)
+        text = "\r".join([groups.msh(v, sid)] + [groups.seg_text(n, i + 1) if T.seg_rows(v, n) else n
+                                                  for i, n in enumerate(names[1:])])
         try:
             m = parse_message(text, message_profile=prof)
         except Exception as ex:
@@ -273,6 +410,8 @@ def _chunk(args):
         nodes = groups.flatten_structure(st)
         if any(n[1] == "SEG" and len(n[0]) != 3 for n in nodes):
             continue
+        if len(set((n[4], n[0]) for n in nodes)) != len(nodes):
+            continue        # the same name twice among siblings (ADT_A17): creation by name is ambiguous
         try:
             profs = make_profiles(v, sid, rnd, quick)
         except Exception as ex:
@@ -320,7 +459,7 @@ def exception_events():
 
 def signature(e, clause):
     sig = {"clause": clause, "k": e.get("k", "val")}
-    for k in ("how", "desc", "what", "sid", "v", "mutation"):
+    for k in ("route", "how", "desc", "what", "sid", "v", "mutation"):
         if k in e:
             sig[k] = e[k] if k != "desc" else e[k].split(":")[0]
     return sig
@@ -381,18 +520,19 @@ def run(ctx):
         ctx.fail(signature(e, "against_profile:" + clause), {"clause": clause, "v": e["v"], "sid": e["sid"], "desc": e["mutation"],
                                                              "errors": e["errors"], "tree": e["tree"][:20]})
     for e in ev1:
-        ctx.nontrivial((e["k"], e.get("desc"), e.get("how"), e.get("v"), e.get("sid"), e.get("what")))
+        ctx.nontrivial((e["k"], e.get("desc"), e.get("route"), e.get("how"), e.get("v"), e.get("sid"), e.get("what")))
     for e in vals:
         ctx.nontrivial(("val", e["mutation"], e["v"], e["sid"], e["mode"]))
     ctx.extra["creation_events"] = len(creates)
     ctx.extra["restated_profile_comparisons"] = len(sames)
     ctx.extra["validations_against_profiles"] = len(vals)
     for e in creates[:3]:
-        ctx.sample({k: e[k] for k in ("how", "desc", "v", "sid", "dt_want", "dt_got", "max_want", "accepted", "outcome")})
+        ctx.sample({k: e[k] for k in ("route", "how", "desc", "v", "sid", "dt_want", "dt_got", "max_want", "accepted", "outcome")})
     ctx.rule = ("per version (quick: 3, thorough: 40) message structures: the restated profile (digests of build / parse / encode / "
                 "validate with and without it), and one-edit profiles - tighten, require, forbid at segment, group, field and "
                 "component level, datatype swap of leaf fields/components - each exercised through traversal, add_* and "
-                "assignment under STRICT until refused, and through parsing + validation judged against the profile's structure; "
+                "assignment under STRICT until refused, below a parent that was itself built by add_*, by traversal, by parsing "
+                "(last repetition of every repeatable group on the way) and by ER7 assignment to its own parent, and through parsing + validation judged against the profile's structure; "
                 "the shipped ITI-21 profile; missing and legacy profiles")
     ctx.assumptions += ["a standard reference tree is itself a valid message profile (same nested format), so profiles are "
                         "synthesised by editing a private copy of it"]
